@@ -454,6 +454,8 @@ fn random_case(rng: &mut Rng, s: &str) -> String {
 const HVALS: [&str; 12] = ["v", "a b", "a  b", " lead", "trail ", "  both  ", "\tt\t", "", "x,y", "a   b  c", "w=1; q", "Z"];
 const QNAMES_ROUTE: [&str; 12] = ["prefix", "delimiter", "marker", "max-keys", "a", "b", "k é", "x-id", "acl", "prefix", "a", "A"];
 const QNAMES_BACKEND: [&str; 6] = ["x-id", "a", "b", "k é", "zz", "a"];
+/// pairs (unreserved continuation, reserved or non-ASCII continuation) after a common prefix: raw order x < y, encoded order y < x
+const DIVERGENT_QNAMES: [(&str, &str); 6] = [("k~", "k\u{e9}"), ("zz", "z{"), ("a1", "a:"), ("idA", "id[1]"), ("filter.name", "filter:name"), ("x-ide", "x-id|")];
 const BOUNDARY: &str = "----s3vFormBoundary7MA4YWxkTrZu0gW";
 
 /// the request a signer starts from (everything decoded)
@@ -506,6 +508,15 @@ fn gen_base(rng: &mut Rng, presigned: bool) -> Base {
     }
     if !backend && !presigned && rng.chance(1, 10) {
         query.push((b"tagging".to_vec(), Vec::new()));
+    }
+    if rng.chance(1, 8) {
+        // two names whose order differs before and after percent-encoding: the canonical query string is sorted by the
+        // ENCODED names ('%' sorts before every unreserved character except none; ':' '[' '{' and non-ASCII sort after some)
+        let (x, y) = rng.pick(&DIVERGENT_QNAMES);
+        let (x, y) = if rng.chance(1, 2) { (x, y) } else { (y, x) };
+        query.push((x.as_bytes().to_vec(), gen_text(rng, &KEY_UNITS, 0, 2).into_bytes()));
+        let at = rng.below(query.len() as u64 + 1) as usize;
+        query.insert(at, (y.as_bytes().to_vec(), gen_text(rng, &KEY_UNITS, 0, 2).into_bytes()));
     }
     let (http2, authority, host_header) = match rng.below(8) {
         0 => (true, Some("auth.example:8014".to_owned()), None),
@@ -1558,6 +1569,14 @@ pub fn generate_post(rng: &mut Rng, n: u64, emit: &mut dyn FnMut(Vec<String>)) {
         let replace_field = |name: &str, new: PCond| with_conds(&|c| { c.retain(|x| !matches!(x, PCond::Eq { field, .. } | PCond::Starts { field, .. } if field.eq_ignore_ascii_case(name))); c.push(new.clone()); });
         all.push(assemble("policy-eq-violated.key", &plain, &render_policy(&expiration, &replace_field("key", PCond::Eq { field: "key".into(), value: "up/another-name".into(), array: rng.chance(1, 2) }), sp), table(), &file).0);
         all.push(assemble("policy-eq-violated.bucket", &plain, &render_policy(&expiration, &replace_field("bucket", PCond::Eq { field: "bucket".into(), value: "another-bucket".into(), array: rng.chance(1, 2) }), sp), table(), &file).0);
+        {
+            // the form carries a `bucket` FIELD: the condition is about the bucket the upload is written to (the request's),
+            // whatever the field says
+            let mut pl = plain.clone();
+            pl.push(("bucket".into(), "another-bucket".into()));
+            all.push(assemble("policy-eq-violated.bucket-field-agrees-with-policy", &pl, &render_policy(&expiration, &replace_field("bucket", PCond::Eq { field: "bucket".into(), value: "another-bucket".into(), array: rng.chance(1, 2) }), sp), table(), &file).0);
+            all.push(assemble("policy-ok.bucket-field-differs", &pl, &base_text, table(), &file).0);
+        }
         {
             // Content-Type / x-amz-meta-*: make sure the field is in the form, demand another value
             for (tag, name, demanded) in [("content-type", "Content-Type", "application/pdf"), ("meta", "x-amz-meta-note", "another note")] {
